@@ -43,7 +43,12 @@ Pool == <<
   Txt(TermToks([k |-> "SetIntension", s |-> {W("ab")}])),                                         \* 18 a longer text whose tail can complete a copula after input 17
   <<"x", "y">> \o CopulaHead \o CopulaTail,                                                      \* 19 ... and one that ends with a whole copula
   Format(AsSentence(Sent(B, "Judgement", [k |-> "Eternal"], <<>>))) \o <<"\r">>,                  \* 20 a sentence followed by a carriage return
-  <<"\t">> \o Format(AsTerm(A)) \o <<"\n">>                                                      \* 21 a term wrapped in tab / newline
+  <<"\t">> \o Format(AsTerm(A)) \o <<"\n">>,                                                     \* 21 a term wrapped in tab / newline
+  Txt(EndWith(TermToks(A) \o T(F.punct["Judgement"], "t"), "t") \o T(F.stampL, "n") \o T(F.stamp["Fixed"], "n") \o T(<<"5", "-", "3">>, "n") \o T(F.stampR, "n")),   \* 22 a malformed fixed-stamp number
+  Format(AsSentence(Sent(B, "Goal", [k |-> "Fixed", n |-> "-7"], <<"1">>))),                      \* 23 a well-formed fixed stamp (after 22 / 24)
+  Txt(EndWith(TermToks(A) \o T(F.punct["Judgement"], "t"), "t") \o StampToks([k |-> "Fixed", n |-> "99999999999999999999"])),  \* 24 a fixed stamp that overflows
+  Format(AsTerm([k |-> "ImageExtension", c |-> <<B, [k |-> "PlaceholderRaw", raw |-> "who"]>>])),  \* 25 ends with a placeholder glued to name characters
+  Format(AsTerm([k |-> "Inheritance", a |-> W("c"), b |-> OP("d")]))                              \* 26 a statement whose first atom is a plain word (after 25)
 >>
 
 Init == hist = <<>> /\ slots = EmptyMid /\ outs = <<>>
